@@ -902,6 +902,15 @@ regp_recv(RegP *p, RPMaybeFrame *mf)
 
     int rc = parse_frame(&cs.buffer);
 
+    if (rc >= 0 && p->ep.type != RP_EP_TCP
+        && regp_has_hdcrc(mf->frame) == false)
+    {
+        /* Serial channels mandate the header checksum: A frame that does not
+         * declare one is not protected at all (the option bits are part of
+         * what the checksum covers) and has a bad header encoding. */
+        rc = -EBADMSG;
+    }
+
     if (rc < 0) {
         mf->error.id = -rc;
     }
